@@ -160,6 +160,16 @@ func genCtrlCase(rt *rapid.T, o ctrlGenOpts) ctrlCase {
 		case k <= 7 && len(live) < 7:
 			op.Kind = "create"
 			s := vw.GenSvc(rt, next, 2, poolNames(cur))
+			if len(live) > 0 && rapid.IntRange(0, 3).Draw(rt, "twin") == 0 {
+				// a co-tenant in the making: same sharing key, policy, selector, families and namespace as an existing
+				// service, other ports - the allocator will usually put both on one address
+				if b := live[rapid.IntRange(0, len(live)-1).Draw(rt, "twinOf")]; b.Sharing != "" {
+					s.NS, s.Labels, s.Sharing, s.ShareOld, s.Local, s.Selector = b.NS, b.Labels, b.Sharing, b.ShareOld, b.Local, b.Selector
+					s.Families, s.Policy = append([]int(nil), b.Families...), b.Policy
+					s.LBIP, s.LBIPs, s.Pool = "", "", ""
+					s.Ports = vw.OtherPorts(b.Ports)
+				}
+			}
 			next++
 			op.Spec = &s
 			live = append(live, s)
@@ -298,6 +308,9 @@ type sim struct {
 	pendingBefore bool
 	sinceRestart  map[string]bool         // services written / made inadmissible since the restart
 	recR          map[string][]netip.Addr // during a restart: the statuses at the crash
+	cfgGen        int                     // number of configurations the controller accepted so far
+	howGotGen     map[string]int          // cfgGen at the time howGot was recorded
+	howGot        map[string]string       // how each service came to its current addresses (Allocate | AllocateFromPool | Assign | AddFamily)
 	blame         map[string]bool         // during a restart: victim -> whoever held its recorded address when the victim's handler ran had a record itself
 	thefts        map[string]bool         // during a restart: victim -> the service that took its recorded address had a record itself
 }
@@ -461,6 +474,7 @@ func (s *sim) boot() {
 			res := s.c.SetPools(l, pools)
 			s.ctrlCl = s.cl
 			s.hasCfg = true
+			s.cfgGen++
 			// a service whose addresses are not admissible under a configuration the controller went
 			// through is no innocent bystander for this settling period, even if a later edit restores them
 			sh := s.statusHolders()
@@ -630,6 +644,10 @@ func (s *sim) afterService(name string, svc *v1.Service, pre vw.Holders, preIPs 
 		how = "AllocateFromPool"
 		s.tr.Class("explicit-pool")
 	}
+	if s.howGot == nil {
+		s.howGot, s.howGotGen = map[string]string{}, map[string]int{}
+	}
+	s.howGot[name], s.howGotGen[name] = how, s.cfgGen
 	if v := vw.JudgeAssignment(s.ctrlCl, sp, now, pre, how, had, sp.Pool, s.tr); v != nil {
 		if id := vw.KnownID("C02", v); id != "" {
 			s.tr.Known(id)
@@ -954,7 +972,18 @@ func (s *sim) atQuiescence(label string) {
 			if !s.ctrlCl.Admits(*p, sp) {
 				v := vw.Violationf("status-pool-does-not-admit", "%s: at quiescence %s (ns %s, labels %v) holds %v of pool %s which does not admit it", label, k, sp.NS, sp.Labels, ips, p.Name)
 				if s.ctrlCl.NsSelMatchesNothing(*p) {
-					v.Sig = "pool-does-not-admit:namespace-selectors-match-no-namespace"
+					// same identification as in JudgeAssignment: an address the service already held at the last
+					// quiescence is a re-claim, otherwise what the handler did when the addresses were recorded
+					path := "explicit-request-or-reclaim"
+					// (also a re-claim: addresses obtained under an earlier configuration and kept across the change)
+					kept := (s.lastQ != nil && addrSetKey(s.lastQ.addrs[k]) == addrSetKey(ips)) || s.howGotGen[k] != s.cfgGen
+					if !kept && s.howGot[k] == "Allocate" {
+						path = "automatic-without-service-selectors"
+						if p.Alloc != nil && len(p.Alloc.SvcSel) > 0 {
+							path = "automatic-via-service-selectors"
+						}
+					}
+					v.Sig = "pool-does-not-admit:namespace-selectors-match-no-namespace:" + path
 				}
 				if id := vw.KnownID("C02", v); id != "" {
 					s.tr.Known(id)
